@@ -311,7 +311,7 @@ loop:
 			if p {
 				return -1, xerr.Wrap("tls-ca", ErrMultipleConnections)
 			}
-			if p = true; i+4 >= n {
+			if p = true; i+3 >= n {
 				return -1, xerr.Wrap("tls-ca", ErrInvalidSetting)
 			}
 			if a := (int(c[i+3]) | int(c[i+2])<<8) + i + 4; a > n || a < i {
@@ -593,7 +593,7 @@ loop:
 			if p.conn != nil {
 				return nil, -1, 0, xerr.Wrap("tls-ca", ErrMultipleConnections)
 			}
-			if i+4 >= n {
+			if i+3 >= n {
 				return nil, -1, 0, xerr.Wrap("tls-ca", ErrInvalidSetting)
 			}
 			a := (int(c[i+3]) | int(c[i+2])<<8) + i + 4
